@@ -175,6 +175,8 @@ type pipeCfg struct {
 	// full: every step of `consume` keeps reading until it has that many bytes or the stream ends
 	// (io.ReadFull style); the handler then reports one "hex<marker>" entry per step, joined by ';'
 	full bool
+	// noNorm: the server runs with DisableHeaderNamesNormalizing (names reach the framing code as sent)
+	noNorm bool
 }
 
 type pipeObs struct {
@@ -195,6 +197,7 @@ func runPipe(frags [][]byte, cfg pipeCfg) pipeObs {
 			o.MaxRequestBodySize = cfg.maxBody
 		}
 		o.NoDefaultDate = true
+		o.DisableHeaderNamesNormalizing = cfg.noNorm
 	})
 	n := 0
 	e.Any("/*p", func(c context.Context, ctx *app.RequestContext) {
